@@ -82,6 +82,7 @@ type World struct {
 	clients []*Client
 	keys    map[string]bool // every key the scenario touched through the API (for audit mvcc)
 	hung    bool
+	cut     bool // controlled mode: the schedule was cut at a livelock (guarded by rec.mu)
 }
 
 // NewWorld emits `# case n` + `reset` and builds the world.
@@ -500,6 +501,9 @@ func (w *World) Hang(what string) {
 	}
 	w.rec.mu.Unlock()
 }
+
+// WasCut reports whether the controlled scheduler cut the schedule at a livelock.
+func (w *World) WasCut() bool { w.rec.mu.Lock(); defer w.rec.mu.Unlock(); return w.cut }
 
 func (w *World) Hung() bool { w.rec.mu.Lock(); defer w.rec.mu.Unlock(); return w.hung }
 
